@@ -385,10 +385,12 @@ func unmarshalCollection(s string) (orb.Collection, error) {
 		return nil, ErrNotWKT
 	}
 
-	geometries := splitGeometryCollection(s[18:])
-	if len(geometries) == 0 {
-		return orb.Collection{}, nil
+	s, err := trimSpaceBrackets(s[18:])
+	if err != nil {
+		return nil, err
 	}
+
+	geometries := splitGeometryCollection(s)
 
 	c := make(orb.Collection, 0, len(geometries))
 	for _, g := range geometries {
@@ -407,30 +409,28 @@ func unmarshalCollection(s string) (orb.Collection, error) {
 	return c, nil
 }
 
-// splitGeometryCollection split GEOMETRYCOLLECTION to more geometry
+// splitGeometryCollection splits the member list of a GEOMETRYCOLLECTION,
+// e.g. "POINT(1 2),LINESTRING EMPTY", on the commas that are not nested
+// inside parentheses.
 func splitGeometryCollection(s string) (r []string) {
 	r = make([]string, 0)
-	stack := make([]rune, 0)
-	l := len(s)
-	for i, v := range s {
-		if !strings.Contains(string(stack), "(") {
-			stack = append(stack, v)
-			continue
+
+	depth, start := 0, 0
+	for i := 0; i < len(s); i++ {
+		switch s[i] {
+		case '(':
+			depth++
+		case ')':
+			depth--
+		case ',':
+			if depth == 0 {
+				r = append(r, trimSpace(s[start:i]))
+				start = i + 1
+			}
 		}
-		if ('A' <= v && v < 'Z') || ('a' <= v && v < 'z') {
-			t := string(stack)
-			r = append(r, t[:len(t)-1])
-			stack = make([]rune, 0)
-			stack = append(stack, v)
-			continue
-		}
-		if i == l-1 {
-			r = append(r, string(stack))
-			continue
-		}
-		stack = append(stack, v)
 	}
-	return
+
+	return append(r, trimSpace(s[start:]))
 }
 
 // Unmarshal return a geometry by parsing the WKT string.
